@@ -52,7 +52,7 @@ package files
 //
 //@ pure func NormalizeAbsoluteFilePath(src string) (result string)
 //@   ensures [C04 C05] absolute: strings.HasPrefix(result, "/")
-//@   ensures [C04 C05] clean: !strings.Contains(result, "//") && !strings.Contains(result, "/../") && !strings.HasSuffix(result, "/..") && !strings.Contains(result, "/./")
+//@   ensures [C04 C05] clean: !strings.Contains(result, "//") && !strings.Contains(result, "/../") && !strings.HasSuffix(result, "/..") && !strings.Contains(result, "/./") && !strings.HasSuffix(result, "/.")
 //@   ensures [C04 C05] no-trailing-slash: result == "/" || !strings.HasSuffix(result, "/")
 //@   ensures [C05] idempotent: NormalizeAbsoluteFilePath(result) == result
 //
